@@ -505,15 +505,6 @@ def classify(case: dict, res: dict) -> dict:
             kind = "nt-mutable-default"
         elif exc in ("RecursionError", "CaseTimeout") and last.get("cyclic"):
             kind = "recursive-class"
-        elif exc in ("RecursionError", "CaseTimeout") and last.get("table_override_recursion"):
-            kind = "table-override-recursion"
-    elif res.get("clause") == "metaschema" and "validator crashed" in res.get("what", "") and res.get("detail", {}).get("depth", 0) >= 150 \
-            and any(f.get("table_override_recursion") for f in upto):
-        # the library swallowed its own RecursionError (except Exception -> Any) and returned a ~1000-deep document
-        kind = "table-override-recursion"
-    elif res.get("clause") == "accumulate" and any(f.get("table_override_recursion") for f in upto):
-        # where the library's own RecursionError is swallowed depends on the stack depth at that moment
-        kind = "table-override-recursion"
     elif res.get("clause") == "accumulate":
         if _clash_across(upto):
             kind = "defs-bare-name-clash"
